@@ -644,6 +644,9 @@ fn tree_diff(ab: &[u8], a: &Item, bb: &[u8], b: &Item) -> String {
         if a.major == 2 && b.major == 3 {
             return "bytes-accepted-for-text".to_owned();
         }
+        if a.major == 4 && b.major == 5 {
+            return "array-accepted-for-struct".to_owned();
+        }
         return format!("major-{}-vs-{}", a.major, b.major);
     }
     match a.major {
